@@ -100,8 +100,8 @@ def run_pairs(run, r, idx, uc, unitcell, cell, sym, kind, B, G, UB_t, tol, hstep
     nr = len(uc.ringds)
     if nr < 1:
         return
-    maxpairs = 15 if run.tier == "quick" else 40
-    maxhk = 30 if run.tier == "quick" else 120
+    maxpairs = 15 if run.tier == "quick" else 25
+    maxhk = 30 if run.tier == "quick" else 60
     if hstep:
         maxpairs, maxhk = maxpairs // 2, maxhk // 3
     rp = [(i, j) for i in range(min(nr, 8)) for j in range(i, min(nr, 8))]
@@ -212,7 +212,7 @@ def check(run, replay=None):
         one_case(run, replay["seed"], replay["case"]["index"], unitcell)
         run.nontrivial.update(["replay", "replay2"])
         return
-    n = 40 if run.tier == "quick" else 600
+    n = 40 if run.tier == "quick" else 160
     for idx in range(n):
         one_case(run, run.seed, idx, unitcell)
     run.require_counter("orient_calls", 500)
